@@ -193,6 +193,9 @@ def _hist_strategy(kinds):
                 st.fixed_dictionaries({"op": st.just("restate"), "who": st.integers(0, 1), "state": state}),
                 st.fixed_dictionaries({"op": st.just("query"), "who": st.integers(0, 1),
                                        "prefac": gen.floats(0.05, 1.0, 32)}),
+                # a parameter ramp on the live object: the public attributes time_step() reads (viscosity, density) are changed
+                st.fixed_dictionaries({"op": st.just("retune"), "who": st.integers(0, 1), "nu": gen.log_uniform(1e-4, 1.0),
+                                       "rho": gen.nice_or_log(0.1, 10.0, nice=(1.0,))}),
             )
             return {"cfg_a": cfg_a, "cfg_b": cfg_b, "init": [draw(state), draw(state)],
                     "ops": draw(st.lists(op, min_size=3, max_size=7))}
@@ -236,6 +239,13 @@ def _hist_body(case, ctx):
         other_snap = (simcfg.primary_field_of(other, cfgs[1 - i]).tobytes(), other.velocity_field.tobytes(), other.time)
         if op["op"] == "restate":
             set_state(i, op["state"])
+        elif op["op"] == "retune":
+            sim.kinematic_viscosity = float(op["nu"])
+            cfgs[i] = cfg = dict(cfg, nu=float(op["nu"]))
+            if is_ns:
+                sim.flow_density = float(op["rho"])
+                cfgs[i] = cfg = dict(cfg, rho=float(op["rho"]))
+            ctx.note(labels=["parameters_changed_on_live_simulator"])
         elif op["op"] == "query":
             w0, u0 = prim.tobytes(), sim.velocity_field.tobytes()
             with ctx.repo_call("compute_stable_timestep"):
